@@ -577,30 +577,55 @@ Lemma ftype_wt_lt8 t : ftype_wt t < 8.
 Proof. destruct (ftype_wt_cases t) as [E|[E|[E|E]]]; rewrite E; lia. Qed.
 
 Lemma entry_step1 child fu kk t k key value x R :
-  (0 < k)%Z -> wt_scalar kk x = true -> N.of_nat (length (as_bytes x)) < two63 ->
+  (Z.of_nat (length (key_bytes 1 (kind_wt kk)) + length (scalar_payload kk x)) <= k)%Z ->
+  wt_scalar kk x = true -> N.of_nat (length (as_bytes x)) < two63 ->
   entry_loop child (S fu) kk t k key value (key_bytes 1 (kind_wt kk) ++ scalar_payload kk x ++ R)
   = entry_loop child fu kk t (k - Z.of_nat (length (key_bytes 1 (kind_wt kk)) + length (scalar_payload kk x)))
                (norm_scalar kk x) value R.
 Proof.
-  intros Hk Hwt Hb. cbn [entry_loop]. destruct (Z.leb_spec k 0); [lia|].
+  intros Hk Hwt Hb. cbn [entry_loop].
+  pose proof (key_bytes_len 1 (kind_wt kk)) as Hkl.
+  destruct (Z.leb_spec k 0); [lia|].
   pose proof (kind_wt_lt8 kk) as Hw.
   rewrite dec_key by (lia || exact Hw). cbv zeta. rewrite key_fieldnum by (lia || exact Hw).
   change (Z.of_N 1 =? 1)%Z with true. cbv iota.
-  rewrite scalar_roundtrip by assumption. f_equal. rewrite !app_length. lia.
+  rewrite scalar_roundtrip by assumption.
+  replace (k - (Z.of_nat (length (key_bytes 1 (kind_wt kk) ++ scalar_payload kk x ++ R)) - Z.of_nat (length R)))%Z
+    with (k - Z.of_nat (length (key_bytes 1 (kind_wt kk)) + length (scalar_payload kk x)))%Z
+    by (rewrite !app_length; lia).
+  destruct (Z.ltb_spec (k - Z.of_nat (length (key_bytes 1 (kind_wt kk)) + length (scalar_payload kk x))) 0); [lia|].
+  reflexivity.
 Qed.
 
 Lemma entry_step2 child fu kk t k key value v R :
-  (0 < k)%Z -> wt_elem (wt_msg sch) t v = true ->
+  (Z.of_nat (length (key_bytes 2 (ftype_wt t)) + length (EE t v)) <= k)%Z ->
+  wt_elem (wt_msg sch) t v = true ->
   (forall m, t = TMsg m -> child_good child m v /\ tgt_ok m value) ->
   N.of_nat (length (EE t v)) < two63 ->
   entry_loop child (S fu) kk t k key value (key_bytes 2 (ftype_wt t) ++ EE t v ++ R)
   = entry_loop child fu kk t (k - Z.of_nat (length (key_bytes 2 (ftype_wt t)) + length (EE t v))) key (NE t v) R.
 Proof.
-  intros Hk Hwt Hc Hb. cbn [entry_loop]. destruct (Z.leb_spec k 0); [lia|].
+  intros Hk Hwt Hc Hb. cbn [entry_loop].
+  pose proof (key_bytes_len 2 (ftype_wt t)) as Hkl.
+  destruct (Z.leb_spec k 0); [lia|].
   pose proof (ftype_wt_lt8 t) as Hw.
   rewrite dec_key by (lia || exact Hw). cbv zeta. rewrite key_fieldnum by (lia || exact Hw).
   change (Z.of_N 2 =? 1)%Z with false. change (Z.of_N 2 =? 2)%Z with true. cbv iota.
-  rewrite dec_item_rt by assumption. f_equal. rewrite !app_length. lia.
+  assert (Ek : (k - (Z.of_nat (length (key_bytes 2 (ftype_wt t) ++ EE t v ++ R)) - Z.of_nat (length R))
+                = k - Z.of_nat (length (key_bytes 2 (ftype_wt t)) + length (EE t v)))%Z)
+    by (rewrite !app_length; lia).
+  destruct t as [kd|m].
+  - cbn [emit_elem norm_elem wt_elem ftype_wt] in *.
+    rewrite scalar_roundtrip; [|exact Hwt|pose proof (as_bytes_le_payload kd v Hwt); lia].
+    rewrite Ek.
+    destruct (Z.ltb_spec (k - Z.of_nat (length (key_bytes 2 (kind_wt kd)) + length (scalar_payload kd v))) 0); [lia|].
+    reflexivity.
+  - destruct (Hc m eq_refl) as [Hg Ht]. cbn [emit_elem ftype_wt] in *. unfold lenpfx in *.
+    rewrite <- app_assoc.
+    rewrite take_len_lenpfx by (rewrite app_length in Hb; lia).
+    match goal with |- context [(?e <? 0)%Z] => destruct (Z.ltb_spec e 0) as [Hneg|_] end.
+    { rewrite !app_length in Hneg. rewrite !app_length in Hk. lia. }
+    rewrite (Hg value Ht). f_equal. rewrite !app_length. lia.
 Qed.
 
 Definition entry_body (kk : kind) (t : ftype) (k v : val) : list byte :=
